@@ -73,7 +73,8 @@ Inductive err :=
 | EInvalidKey  (* crypto.ToECDSA error *)
 | EAddrMismatch(* GetKey: key content mismatch *)
 | EPanic       (* the Go code panics here *)
-| EOracle.     (* model artefact: Section data missing *)
+| EOracle      (* model artefact: Section data missing *)
+| EIvLen.      (* repaired code: "invalid IV length" / "invalid ciphertext length" (V1) *)
 
 Inductive res (A : Type) := Ok (a : A) | Err (e : err).
 Arguments Ok {A} a.
@@ -319,6 +320,11 @@ Definition pkcs7_unpad (l : list N) : option (list N) :=
   end.
 
 Section Keystore.
+  (* legacy = true : passphrase.go BEFORE the repair "fix: accounts/keystore: ..." (unchecked
+     type assertions, no dklen / IV length checks: the Go code panics, class EPanic);
+     legacy = false: the repaired code (the checks return errors, in this order). *)
+  Variable legacy : bool.
+  Definition panic_or (e : err) : err := if legacy then EPanic else e.
   Variable H : list N -> list N.
   Variable kdf : kdf_alg -> list N -> list N -> option (list N).
   Variable ctr : list N -> list N -> nat -> option (list N).
@@ -342,9 +348,10 @@ Section Keystore.
         | None => Err EHex
         | Some salt =>
             match ensure_int (mget s_dklen (cj_kdfparams cj)) with
-            | None => Err EPanic
+            | None => Err (panic_or EKdf)
             | Some dklen =>
-                if bytes_eqb (cj_kdf cj) s_scrypt then
+                if negb legacy && (dklen <? 32)%Z then Err EKdf   (* repaired: dkLen < 32 *)
+                else if bytes_eqb (cj_kdf cj) s_scrypt then
                   match ensure_int (mget s_n (cj_kdfparams cj)),
                         ensure_int (mget s_r (cj_kdfparams cj)),
                         ensure_int (mget s_p (cj_kdfparams cj)) with
@@ -352,24 +359,24 @@ Section Keystore.
                       if scrypt_params_ok n r p
                       then run_kdf (KScrypt n r p) auth salt dklen
                       else Err EKdf
-                  | _, _, _ => Err EPanic
+                  | _, _, _ => Err (panic_or EKdf)
                   end
                 else if bytes_eqb (cj_kdf cj) s_pbkdf2 then
                   match ensure_int (mget s_c (cj_kdfparams cj)) with
-                  | None => Err EPanic
+                  | None => Err (panic_or EKdf)
                   | Some c =>
                       match mget s_prf (cj_kdfparams cj) with
                       | Some (JStr prf) =>
                           if bytes_eqb prf s_hmac_sha256
                           then run_kdf (KPbkdf2 c) auth salt dklen
                           else Err EKdf
-                      | _ => Err EPanic
+                      | _ => Err (panic_or EKdf)
                       end
                   end
                 else Err EKdf
             end
         end
-    | _ => Err EPanic          (* cryptoJSON.KDFParams["salt"].(string) *)
+    | _ => Err (panic_or EKdf)   (* cryptoJSON.KDFParams["salt"].(string) *)
     end.
 
   (* presale.go: aesCTRXOR.  The key is derivedKey[:16], so aes.NewCipher cannot fail;
@@ -405,6 +412,7 @@ Section Keystore.
     match hex_decode (cj_iv cj) with
     | None => Err EHex
     | Some iv =>
+    if negb legacy && negb (Nat.eqb (length iv) 16) then Err EIvLen else
     match hex_decode (cj_ciphertext cj) with
     | None => Err EHex
     | Some ct =>
@@ -435,9 +443,11 @@ Section Keystore.
     match hex_decode (cj_iv cj) with
     | None => Err EHex
     | Some iv =>
+    if negb legacy && negb (Nat.eqb (length iv) 16) then Err EIvLen else
     match hex_decode (cj_ciphertext cj) with
     | None => Err EHex
     | Some ct =>
+    if negb legacy && negb (Nat.eqb (Nat.modulo (length ct) 16) 0) then Err EIvLen else
     match get_kdf_key cj auth with
     | Err e => Err e
     | Ok dk =>
